@@ -91,6 +91,13 @@ def check1(case, acc, tmp):
                         continue
                     exp = m0.add_md(ax, mp_model)
                     d = diff(t, exp)
+                    if d is None and not any(i in ids for i in sub):
+                        # nothing named is on the axis: nothing at all may change, not even "no metadata" into
+                        # "one empty entry per id" (the library tells the two apart)
+                        before, _ = make(case)
+                        if (t.metadata(axis=ax) is None) != (before.metadata(axis=ax) is None) or not (t == before):
+                            d = 'no named id is on the axis, yet %s metadata went from %r to %r (table == its former ' \
+                                'self: %r)' % (ax, before.metadata(axis=ax), t.metadata(axis=ax), t == before)
                     if d is not None:
                         what = 'metadata' if 'metadata' in d else 'ids-or-values'
                         bad('add_metadata:' + what, 'add_metadata(%s ids %r, keys %s): %s' % (ax, list(sub), kname, d),
@@ -160,7 +167,9 @@ def check1(case, acc, tmp):
 
 # ----------------------------------------------------------------------------- part 3
 MENU = ['#SampleID\tA\tB\n', '# a comment\n', '\n', 'x\t1\t2.5\n', 'y\t"q"\n', 'z\t a b \tc;d|e\n',
-        'x\t9\t9\n', 'w\t1\t2\t3\n', '   \n', 'y\t7\tp; q\n', 'q\t-3\t+4.5e1\n']
+        'x\t9\t9\n', 'w\t1\t2\t3\n', '   \n', 'y\t7\tp; q\n', 'q\t-3\t+4.5e1\n',
+        # characters str.splitlines() breaks on but a file iterator does not, inside a field
+        'x\ta\x0bb\x0cc\u2028d\x85e\t8\n']
 OPTSETS = {
     'default': {},
     'keepquotes': {'strip_quotes': False},
